@@ -231,6 +231,20 @@ class Prop(object):
             s.count = coded
         return rs2k.derive(sp, dict(HASHES)[hname], klen, self.SEQ_PASS[pi].encode(), self.SEQ_SALTS[si], coded)
 
+    def _wire_octets(self, cfg):
+        sp, hname, cname, coded, pi, si = cfg
+        cid, klen = [(b, c) for a, b, c in CIPHERS if a == cname][0]
+        return bytes([255, cid, sp, dict(HASHES)[hname]]) + (self.SEQ_SALTS[si] if sp >= 1 else b'') + (bytes([coded]) if sp == 3 else b'')
+
+    def _wire(self, s, cfg):
+        sp, hname, cname, coded, pi, si = cfg
+        cid, klen = [(b, c) for a, b, c in CIPHERS if a == cname][0]
+        raw = bytearray(self._wire_octets(cfg) + b'\xAA')
+        s.parse(raw, iv=False)
+        if bytes(raw) != b'\xAA':
+            raise AssertionError('specifier parse consumed wrong number of octets')
+        return rs2k.derive(sp, dict(HASHES)[hname], klen, self.SEQ_PASS[pi].encode(), self.SEQ_SALTS[si], coded)
+
     def c_sequence(self, case):
         """Two derivations one after the other in the same process - on fresh specifier objects and on one object re-configured in place - for every
         ordered pair (first: any specifier kind, second: the unit's kind) of a 72-configuration alphabet that shares hashes, salts, passphrases and
@@ -244,12 +258,27 @@ class Prop(object):
             second = self._seq_configs(case['hash'], case['spec'])
             first = self._seq_configs(case['hash'])
             pairs = [(a, b) for a in first for b in second if a != b]
-            modes = ['fresh', 'reuse', 'copy']
+            modes = ['fresh', 'reuse', 'copy', 'reparse']
         for a, b in pairs:
             for mode in modes:
                 r.states += 1
                 r.transitions += 2
                 try:
+                    if mode == 'reparse':
+                        # one specifier object reads the wire form of the first configuration, derives, then reads the wire form of the second
+                        s1 = String2Key()
+                        want_a = self._wire(s1, a)
+                        got_a = bytes(s1.derive_key(self.SEQ_PASS[a[4]]))
+                        want_b = self._wire(s1, b)
+                        got_b = bytes(s1.derive_key(self.SEQ_PASS[b[4]]))
+                        octets, want_octets = bytes(s1.__bytearray__()), self._wire_octets(b)
+                        bad = 'first' if got_a != want_a else ('second' if got_b != want_b else ('octets' if octets != want_octets else None))
+                        info = 'first got %s want %s; second got %s want %s; specifier serialises as %s, was read from %s' % (got_a.hex(), want_a.hex(), got_b.hex(), want_b.hex(), octets.hex(), want_octets.hex())
+                        r.outcomes['sequence:' + (bad or 'ok')] += 1
+                        if bad:
+                            r.viol('sequence', {'kind': 'sequence-' + bad, 'mode': mode, 'same_size': a[2] == b[2]}, {'pair': [a, b], 'mode': mode},
+                                   'derivation %r then %r (one specifier object parsing two wire forms): %s' % (a, b, info))
+                        continue
                     s1 = String2Key()
                     want_a = self._configure(s1, a)
                     got_a = bytes(s1.derive_key(self.SEQ_PASS[a[4]]))
